@@ -86,7 +86,7 @@ func (s *Scheduler) Schedule(g *ExecutionGraph) error {
 					verifAt("sched.stage.errored", stage)
 
 					if !stage.AllowFailure {
-						g.error = err
+						g.setError(err)
 						return
 					}
 				}
